@@ -1001,6 +1001,14 @@ def c10(tier, rep):
     progs, _ = fam_chains.sync_chain_programs(2)
     fr2 = e2.run_family("c10chains", progs)
     judge_family(rep, fr2)
+    # operands inside wrappers whose closure runs never / once / once per item: parenthesised blocks (ordinary expressions, evaluated
+    # as often as the closure runs) next to real block captures (evaluated once)
+    from . import fam_wrappers
+
+    wp, _ = fam_wrappers.programs(tier)
+    wp = [q for q in wp if "paren/" in q.id or "cap/" in q.id]
+    fr5 = e2.run_family("c10wrappers", wp)
+    judge_family(rep, fr5)
     from . import fam_captures
 
     cp, _ = fam_captures.chain_programs(tier)
